@@ -3,7 +3,7 @@ CONSTANTS
   Crcs <- Crcs2
   CrcSeq <- CrcSeq2
   LogTables <- LogEmpty
-  ParamTables <- ParEmpty
+  ParamTables <- ParOnlyEmpty
   FLen = 2
   Alias <- AliasBeef
   Bug = "none"
